@@ -556,6 +556,12 @@ func (t *Tracer) execIf(fr *Frame, i *ssa.If, st State, k func(State, []Ref)) {
 				// the same decision seen through the predicate helper's own expression
 				fake := &ssa.If{Cond: vcond}
 				evs = append(evs, t.Spec.Branch(t, vfr, fake, d != vflip)...)
+				// ... and, for a predicate over its parameters only, in the caller's own terms
+				if vfr != nil && vfr != fr && vfr.Site != nil && vfr.Parent == fr {
+					if sub, pure := substParams(vfr.Fn, vfr.Site.Common().Args, vcond, 0); pure && sub != vcond {
+						evs = append(evs, t.Spec.Branch(t, fr, &ssa.If{Cond: sub}, d != vflip)...)
+					}
+				}
 			}
 			for _, e := range evs {
 				if e.Fr == nil {
@@ -588,7 +594,33 @@ func (t *Tracer) foldCompare(fr *Frame, c ssa.Value) (bool, bool) {
 		return !v, ok
 	}
 	b, ok := c.(*ssa.BinOp)
-	if !ok || (b.Op != token.EQL && b.Op != token.NEQ) {
+	if !ok {
+		return false, false
+	}
+	switch b.Op {
+	case token.LSS, token.GTR, token.LEQ, token.GEQ, token.EQL, token.NEQ:
+		if _, isInt := b.X.Type().Underlying().(*types.Basic); isInt {
+			kx, okx := t.foldInt(fr, b.X)
+			ky, oky := t.foldInt(fr, b.Y)
+			if okx && oky {
+				switch b.Op {
+				case token.LSS:
+					return kx < ky, true
+				case token.GTR:
+					return kx > ky, true
+				case token.LEQ:
+					return kx <= ky, true
+				case token.GEQ:
+					return kx >= ky, true
+				case token.EQL:
+					return kx == ky, true
+				case token.NEQ:
+					return kx != ky, true
+				}
+			}
+		}
+	}
+	if b.Op != token.EQL && b.Op != token.NEQ {
 		return false, false
 	}
 	x, y := t.Resolve(fr, b.X), t.Resolve(fr, b.Y)
@@ -1023,10 +1055,53 @@ func (t *Tracer) inline(fr *Frame, c ssa.CallInstruction, f *ssa.Function) bool 
 		}
 		top := TopLevel(t.Root)
 		if f.Pkg != nil && top.Pkg != nil && f.Pkg == top.Pkg && f.Object() != nil && !f.Object().Exported() && fr.Depth < 5 {
+			if t.Spec.Branch != nil && isParamPredicate(f) {
+				return true // what it decides is a fact about the caller's arguments; one block, cheap
+			}
 			return !isLogCall(c.Common()) && t.interesting(f, 0)
 		}
 	}
 	return false
+}
+
+// DecidedInHelper reports that the branch condition is the result of a
+// repository helper the engine descends into (or views as a predicate): the
+// decisions that matter were classified inside the helper, so the branch on
+// its result is not an unlisted decision of the caller.
+func (t *Tracer) DecidedInHelper(i *ssa.If) bool {
+	v := i.Cond
+	if u, ok := v.(*ssa.UnOp); ok && u.Op == token.NOT {
+		v = u.X
+	}
+	call, ok := v.(*ssa.Call)
+	if !ok {
+		return false
+	}
+	sf := call.Call.StaticCallee()
+	return sf != nil && t.isRepo(sf) && (t.interesting(sf, 0) || isParamPredicate(sf))
+}
+
+// isParamPredicate: a one-block function returning a boolean expression over
+// its parameters and constants only (`func (s state) isLoaded() bool`).
+func isParamPredicate(g *ssa.Function) bool {
+	if len(g.Blocks) != 1 {
+		return false
+	}
+	r, ok := g.Blocks[0].Instrs[len(g.Blocks[0].Instrs)-1].(*ssa.Return)
+	if !ok || len(r.Results) != 1 {
+		return false
+	}
+	switch r.Results[0].(type) {
+	case *ssa.BinOp, *ssa.UnOp:
+	default:
+		return false
+	}
+	var self []ssa.Value
+	for _, prm := range g.Params {
+		self = append(self, prm)
+	}
+	_, pure := substParams(g, self, r.Results[0], 0)
+	return pure
 }
 
 func (t *Tracer) combs(callee *types.Func) map[int]Comb {
@@ -1078,6 +1153,40 @@ func (t *Tracer) foldInt(fr *Frame, v ssa.Value) (int64, bool) {
 func (t *Tracer) foldIntD(fr *Frame, v ssa.Value, depth int) (int64, bool) {
 	if depth > 4 {
 		return 0, false
+	}
+	// an induction variable (range index, `for i := k0; ...; i += step`): its value is fixed by how often
+	// the loop header was entered over the back edge since it was last entered from outside
+	if ph, ok := v.(*ssa.Phi); ok && len(ph.Edges) == 2 {
+		for i := 0; i < 2; i++ {
+			k0, isC := constInt(ph.Edges[i])
+			b, isB := ph.Edges[1-i].(*ssa.BinOp)
+			if !isC || !isB || b.Op != token.ADD || b.X != ssa.Value(ph) {
+				continue
+			}
+			step, isS := constInt(b.Y)
+			if !isS {
+				continue
+			}
+			initPred, backPred := ph.Block().Preds[i].Index, ph.Block().Preds[1-i].Index
+			n := int64(0)
+			found := false
+			for e := t.cur.edges; e != nil; e = e.next {
+				if e.fr != fr || e.to != ph.Block().Index {
+					continue
+				}
+				if e.from == backPred {
+					n++
+					continue
+				}
+				if e.from == initPred {
+					found = true
+				}
+				break
+			}
+			if found {
+				return k0 + step*n, true
+			}
+		}
 	}
 	r := t.Resolve(fr, v)
 	if k, ok := constInt(r.V); ok {
